@@ -521,7 +521,7 @@ func vcGenModel(r *zzverif.Rng, out *zzverif.Out) vcFile {
 					// llama.feed_forward_length; outside C16, avoided here
 					m.U32["feed_forward_length"] = 14336
 				}
-			} else {
+			} else if heads > 0 { // with head_count 0 GraphSize divides by zero in the 8x7b branch (outside C16)
 				m.Tensors = append(m.Tensors, vcTensor{Name: "blk.0.ffn_gate.0.weight", Kind: 0, Shape: []uint64{64, uint64(r.Range(1, 4096))}})
 			}
 		}
